@@ -86,6 +86,15 @@ extern size_t verif_j, verif_k;
 	 ((res) == 0U || VERIF_IKEY((tgt)[(res) - 1U]) < VERIF_KEY(y, m, d, H, M, S)) && \
 	 (!(verif_j + 1U < (res)) || VERIF_IKEY((tgt)[verif_j]) < VERIF_IKEY((tgt)[(res) - 1U])) && \
 	 (!(verif_j < verif_k && verif_k < (res)) || VERIF_IKEY((tgt)[verif_j]) < VERIF_IKEY((tgt)[verif_k])))
+/* make_enum: N values delivered into ARR so far, REM left in the container
+ * whose view is VU behind the cursor IT; what is left lies at or above N and
+ * above every value delivered; the witness slots hold members, in increasing order */
+# define VERIF_ENUM_OK(arr, n, it, rem, vu, one, hi)	\
+	(((n) == 0U) == ((it) == 0U) && ((rem) & (((one) << (n)) - (one))) == 0U && \
+	 (verif_k >= (n) || \
+	  ((arr)[verif_k] <= (hi) && (((vu) >> (arr)[verif_k]) & (one)) && \
+	   ((rem) & (((one) << ((arr)[verif_k] + 1U)) - (one))) == 0U)) && \
+	 (verif_j >= (n) || verif_k >= verif_j || (arr)[verif_k] < (arr)[verif_j]))
 #endif	/* ECHSE_VERIF */
 
 static const unsigned int mdays[] = {
@@ -458,7 +467,16 @@ make_enum(struct enum_s *restrict tgt, echs_instant_t proto, rrulsp_t rr)
 
 	/* get all hours */
 	for (bitint_iter_t Hi = 0UL;
-	     (tmp = bui31_next(&Hi, rr->H), Hi);) {
+	     (tmp = bui31_next(&Hi, rr->H), Hi);)
+#if defined ECHSE_VERIF
+	/* what is left to deliver lies at or above the number delivered */
+	__CPROVER_assigns(Hi, tmp, nH, tgt->H)
+	__CPROVER_loop_invariant(
+		CUR_OK_BUI31(Hi, rr->H) && Hi <= 64U && nH <= 24U &&
+		VERIF_ENUM_OK(tgt->H, nH, Hi, REM_BUI31(Hi, rr->H), VU31(rr->H), 1U, 30U))
+	__CPROVER_decreases(64 - (long)Hi)
+#endif	/* ECHSE_VERIF */
+	{
 		tgt->H[nH++] = (uint8_t)tmp;
 	}
 	if (!nH) {
@@ -466,7 +484,16 @@ make_enum(struct enum_s *restrict tgt, echs_instant_t proto, rrulsp_t rr)
 	}
 	/* get all minutes */
 	for (bitint_iter_t Mi = 0UL;
-	     (tmp = bui63_next(&Mi, rr->M), Mi);) {
+	     (tmp = bui63_next(&Mi, rr->M), Mi);)
+#if defined ECHSE_VERIF
+	/* what is left to deliver lies at or above the number delivered */
+	__CPROVER_assigns(Mi, tmp, nM, tgt->M)
+	__CPROVER_loop_invariant(
+		CUR_OK_BUI63(Mi, rr->M) && Mi <= 128U && nM <= 60U &&
+		VERIF_ENUM_OK(tgt->M, nM, Mi, REM_BUI63(Mi, rr->M), VU63(rr->M), 1ULL, 62U))
+	__CPROVER_decreases(128 - (long)Mi)
+#endif	/* ECHSE_VERIF */
+	{
 		tgt->M[nM++] = (uint8_t)tmp;
 	}
 	if (!nM) {
@@ -474,7 +501,16 @@ make_enum(struct enum_s *restrict tgt, echs_instant_t proto, rrulsp_t rr)
 	}
 	/* get all them seconds */
 	for (bitint_iter_t Si = 0UL;
-	     (tmp = bui63_next(&Si, rr->S), Si);) {
+	     (tmp = bui63_next(&Si, rr->S), Si);)
+#if defined ECHSE_VERIF
+	/* what is left to deliver lies at or above the number delivered */
+	__CPROVER_assigns(Si, tmp, nS, tgt->S)
+	__CPROVER_loop_invariant(
+		CUR_OK_BUI63(Si, rr->S) && Si <= 128U && nS <= 61U &&
+		VERIF_ENUM_OK(tgt->S, nS, Si, REM_BUI63(Si, rr->S), VU63(rr->S), 1ULL, 62U))
+	__CPROVER_decreases(128 - (long)Si)
+#endif	/* ECHSE_VERIF */
+	{
 		tgt->S[nS++] = (uint8_t)tmp;
 	}
 	if (!nS) {
